@@ -2,10 +2,10 @@ package rules
 
 import (
 	"fmt"
-	"sync"
 	"go/types"
 	"sort"
 	"strings"
+	"sync"
 
 	"cachelint/internal/core"
 	"cachelint/internal/sym"
